@@ -187,14 +187,14 @@ class InsertItemsContract(CarriedItems, ItemContract):
 
 @contract('mosromgr.mostypes.ItemInsert.merge')
 class ItemInsertMerge(InsertItemsContract):
-    props = ('C02', 'C03', 'C04', 'C05', 'C06', 'C07', 'C12', 'C13', 'C14')
+    props = ('C02', 'C03', 'C04', 'C05', 'C06', 'C07', 'C12', 'C13', 'C14', 'C15')
     cls_name = 'ItemInsert'
     base_tag_name = 'roItemInsert'
 
 
 @contract('mosromgr.mostypes.EAItemInsert.merge')
 class EAItemInsertMerge(InsertItemsContract):
-    props = ('C02', 'C03', 'C04', 'C05', 'C06', 'C07', 'C12', 'C13', 'C14')
+    props = ('C02', 'C03', 'C04', 'C05', 'C06', 'C07', 'C12', 'C13', 'C14', 'C15')
     cls_name = 'EAItemInsert'
     base_tag_name = 'roElementAction'
     story_in_target = True
@@ -246,14 +246,14 @@ class ReplaceItemsContract(CarriedItems, ItemContract):
 
 @contract('mosromgr.mostypes.ItemReplace.merge')
 class ItemReplaceMerge(ReplaceItemsContract):
-    props = ('C02', 'C03', 'C04', 'C05', 'C06', 'C07', 'C12', 'C13', 'C14')
+    props = ('C02', 'C03', 'C04', 'C05', 'C06', 'C07', 'C12', 'C13', 'C14', 'C15')
     cls_name = 'ItemReplace'
     base_tag_name = 'roItemReplace'
 
 
 @contract('mosromgr.mostypes.EAItemReplace.merge')
 class EAItemReplaceMerge(ReplaceItemsContract):
-    props = ('C02', 'C03', 'C04', 'C05', 'C06', 'C07', 'C12', 'C13', 'C14')
+    props = ('C02', 'C03', 'C04', 'C05', 'C06', 'C07', 'C12', 'C13', 'C14', 'C15')
     cls_name = 'EAItemReplace'
     base_tag_name = 'roElementAction'
     story_in_target = True
@@ -331,14 +331,14 @@ class DeleteItemsContract(ItemContract):
 
 @contract('mosromgr.mostypes.ItemDelete.merge')
 class ItemDeleteMerge(DeleteItemsContract):
-    props = ('C02', 'C03', 'C05', 'C06', 'C07', 'C12', 'C13', 'C14')
+    props = ('C02', 'C03', 'C05', 'C06', 'C07', 'C12', 'C13', 'C14', 'C15')
     cls_name = 'ItemDelete'
     base_tag_name = 'roItemDelete'
 
 
 @contract('mosromgr.mostypes.EAItemDelete.merge')
 class EAItemDeleteMerge(DeleteItemsContract):
-    props = ('C02', 'C03', 'C05', 'C06', 'C07', 'C12', 'C13', 'C14')
+    props = ('C02', 'C03', 'C05', 'C06', 'C07', 'C12', 'C13', 'C14', 'C15')
     cls_name = 'EAItemDelete'
     base_tag_name = 'roElementAction'
     story_in_target = True
@@ -349,7 +349,7 @@ class EAItemDeleteMerge(DeleteItemsContract):
 # ------------------------------------------------------------------ swap
 @contract('mosromgr.mostypes.EAItemSwap.merge')
 class EAItemSwapMerge(ItemContract):
-    props = ('C02', 'C03', 'C05', 'C06', 'C07', 'C12', 'C13', 'C14')
+    props = ('C02', 'C03', 'C05', 'C06', 'C07', 'C12', 'C13', 'C14', 'C15')
     cls_name = 'EAItemSwap'
     base_tag_name = 'roElementAction'
     story_in_target = True
@@ -439,7 +439,7 @@ class ItemMoveContract(MoveContract, ItemContract):
 
 @contract('mosromgr.mostypes.EAItemMove.merge')
 class EAItemMoveMerge(ItemMoveContract):
-    props = ('C02', 'C03', 'C05', 'C06', 'C07', 'C12', 'C13', 'C14')
+    props = ('C02', 'C03', 'C05', 'C06', 'C07', 'C12', 'C13', 'C14', 'C15')
     cls_name = 'EAItemMove'
     base_tag_name = 'roElementAction'
     story_in_target = True
@@ -462,7 +462,7 @@ class EAItemMoveMerge(ItemMoveContract):
 @contract('mosromgr.mostypes.ItemMoveMultiple.merge')
 class ItemMoveMultipleMerge(ItemMoveContract):
     """itemIDs of the base tag: all but the last are sources, the last is the reference (blank = end)"""
-    props = ('C02', 'C03', 'C05', 'C06', 'C07', 'C12', 'C13', 'C14')
+    props = ('C02', 'C03', 'C05', 'C06', 'C07', 'C12', 'C13', 'C14', 'C15')
     cls_name = 'ItemMoveMultiple'
     base_tag_name = 'roItemMoveMultiple'
 
